@@ -409,23 +409,37 @@ func c09R3(c *Ctx) {
 		}
 		for _, dang := range dangSources {
 			dAliases := Aliases(dang)
-			for _, ap := range CallsTo(host, "builtin:append") {
-				elems, whole := c09AppendedElems(ap)
-				// append(queue, slices.DeleteFunc(danglings, isTagged)...): keeps exactly the untagged ones
-				if df, isCall := whole.(*ssa.Call); whole != nil && isCall && CalleeName(df) == "slices.DeleteFunc" && len(df.Call.Args) == 2 && dAliases[df.Call.Args[0]] {
+			// slices that are handed on as a whole: appended (`append(q, xs...)`), or returned to the caller
+			// that enqueues them; slices.Concat(a, b) hands on both
+			for _, sk := range c09WholeSinks(host, host != h.del && host != h.deleteOne) {
+				at, whole := sk.at, sk.whole
+				// slices.DeleteFunc(danglings, isTagged): keeps exactly the untagged ones
+				if keep, isFilter := c09FilterSeqOf(whole, dAliases); isFilter {
+					// an iterator pipeline that keeps the elements for which keep(d) holds: keep must be !isTagged
 					nEnq++
 					usesInline = true
-					ok := c09GuardedUp(c.P, ap.(ssa.Instruction), nil, autoGCEdges, 2)
-					c.Check(R3, dn+"|dangling-only-under-AutoGC", ap.Pos(), ok, ifelse(ok, "a dangling node is enqueued only on the s.AutoGC edge", "dangling nodes are deleted although AutoGC is off"))
-					ok = c09PredIs(df.Call.Args[1], h.isTagged)
-					c.Check(R3, dn+"|dangling-only-if-untagged", ap.Pos(), ok, ifelse(ok, "the tagged dangling nodes are filtered out with slices.DeleteFunc(danglings, isTagged) before they are enqueued", "the dangling nodes are filtered with a predicate that is not the isTagged test: a tagged manifest can be deleted"))
+					ok := c09GuardedUp(c.P, at, nil, autoGCEdges, 2)
+					c.Check(R3, dn+"|dangling-only-under-AutoGC", at.Pos(), ok, ifelse(ok, "a dangling node is enqueued only on the s.AutoGC edge", "dangling nodes are deleted although AutoGC is off"))
+					ok = c09PredIsNot(keep, h.isTagged)
+					c.Check(R3, dn+"|dangling-only-if-untagged", at.Pos(), ok, ifelse(ok, "only the dangling nodes for which !isTagged(d) holds pass the filter before they are enqueued", "the dangling nodes are filtered with a predicate that is not the negated isTagged test: a tagged manifest can be deleted"))
 					continue
 				}
-				if whole != nil && dAliases[whole] {
-					c.Violation(R3, dn+"|dangling-enqueued-unfiltered", ap.Pos(), "the dangling nodes returned by the delete are enqueued as a whole, without the !isTagged filter: tagged manifests would be deleted")
+				if df := c09DeleteFuncOf(whole, dAliases); df != nil {
 					nEnq++
+					usesInline = true
+					ok := c09GuardedUp(c.P, at, nil, autoGCEdges, 2)
+					c.Check(R3, dn+"|dangling-only-under-AutoGC", at.Pos(), ok, ifelse(ok, "a dangling node is enqueued only on the s.AutoGC edge", "dangling nodes are deleted although AutoGC is off"))
+					ok = c09PredIs(df.Call.Args[1], h.isTagged)
+					c.Check(R3, dn+"|dangling-only-if-untagged", at.Pos(), ok, ifelse(ok, "the tagged dangling nodes are filtered out with slices.DeleteFunc(danglings, isTagged) before they are enqueued", "the dangling nodes are filtered with a predicate that is not the isTagged test: a tagged manifest can be deleted"))
 					continue
 				}
+				if dAliases[whole] || dAliases[c09Resolved(whole)] {
+					c.Violation(R3, dn+"|dangling-enqueued-unfiltered", at.Pos(), "the dangling nodes returned by the delete are enqueued as a whole, without the !isTagged filter: tagged manifests would be deleted")
+					nEnq++
+				}
+			}
+			for _, ap := range CallsTo(host, "builtin:append") {
+				elems, _ := c09AppendedElems(ap)
 				for _, e := range elems {
 					if !c09ElemOf(e, dAliases) {
 						continue
@@ -544,8 +558,38 @@ func c09R3Delete(c *Ctx, R3 string, h *c09Helpers) {
 					}
 				}
 			}
+			// the reference is yielded by an iterator: judged where it is yielded (the producer), or — for the
+			// keys of a map — by the filter the map went through
+			filteredOK := false
+			if c09IsYieldBody(f) {
+				if pf, _ := c09ParamOf(args[1]); pf == f {
+					sites = nil
+					AllInstrs(f.Parent(), func(in ssa.Instruction) {
+						seq, body, isRF := c09RangeFuncCall(in)
+						if !isRF || body != f {
+							return
+						}
+						if mk, isCall := c09Resolved(seq).(*ssa.Call); isCall && (CalleeName(mk) == "maps.Keys" || CalleeName(mk) == "maps.All") {
+							if c09MapFilteredTo(mk.Call.Args[0], in, sameAsTarget) {
+								filteredOK = true
+							}
+							return
+						}
+						if vs, closed := c09SitesOf(c.P, f); closed {
+							for _, vsite := range vs {
+								sites = append(sites, keySite{vsite.At, vsite.Tr(args[1])})
+							}
+						}
+					})
+				}
+			}
+			if filteredOK {
+				c.OK(R3, fn+"|untag-only-equal-descriptors", uc.Pos(), "the references untagged are the keys of a map from which every entry not content.Equal to the target was deleted (maps.DeleteFunc)")
+				continue
+			}
 			okAll, undecided := len(sites) > 0, false
 			for _, ks := range sites {
+				f := ks.at.Parent() // the function in which the key is produced
 				var nx ssa.Value
 				if ks.key != nil {
 					for _, r := range Roots(ks.key) {
@@ -573,7 +617,10 @@ func c09R3Delete(c *Ctx, R3 string, h *c09Helpers) {
 					return (isVal(a) && sameAsTarget(b)) || (isVal(b) && sameAsTarget(a))
 				})
 				if !c09Guarded(ks.at, eq) {
-					okAll = false
+					// `for ref := range m` over a map that was filtered down to the equal entries beforehand
+					if nxt, isNext := nx.(*ssa.Next); !isNext || !c09MapFilteredTo(nxt.Iter.(*ssa.Range).X, nxt, sameAsTarget) {
+						okAll = false
+					}
 				}
 			}
 			if undecided {
@@ -589,6 +636,60 @@ func c09R3Delete(c *Ctx, R3 string, h *c09Helpers) {
 	}
 }
 
+// c09MapFilteredTo: before `at`, every entry of map m whose value is not
+// content.Equal to the target was deleted: maps.DeleteFunc(m, func(k, v) bool {
+// return !content.Equal(v, target) }) on every path to `at`.
+func c09MapFilteredTo(m ssa.Value, at ssa.Instruction, sameAsTarget func(ssa.Value) bool) bool {
+	fn := at.Parent()
+	var filters []ssa.Instruction
+	for _, call := range CallsTo(fn, "maps.DeleteFunc") {
+		a := call.Common().Args
+		if len(a) != 2 || !c09SameKey(a[0], m) {
+			continue
+		}
+		ok := false
+		for _, rt := range Roots(a[1]) {
+			var pred *ssa.Function
+			switch u := rt.(type) {
+			case *ssa.MakeClosure:
+				pred = u.Fn.(*ssa.Function)
+			case *ssa.Function:
+				pred = u
+			}
+			if pred == nil || len(pred.Params) != 2 {
+				ok = false
+				break
+			}
+			ok = true
+			for _, ra := range RetAtoms(pred, 0) {
+				v := ra.Val
+				neg := false
+				for {
+					u, isNot := v.(*ssa.UnOp)
+					if !isNot || u.Op != token.NOT {
+						break
+					}
+					neg, v = !neg, u.X
+				}
+				eq, isCall := v.(*ssa.Call)
+				if !isCall || CalleeName(eq) != c09nEqual || !neg {
+					ok = false
+					break
+				}
+				x, y := eq.Call.Args[0], eq.Call.Args[1]
+				isVal := func(w ssa.Value) bool { pf, i := c09ParamOf(w); return pf == pred && i == 1 }
+				if !((isVal(x) && sameAsTarget(y)) || (isVal(y) && sameAsTarget(x))) {
+					ok = false
+				}
+			}
+		}
+		if ok {
+			filters = append(filters, call.(ssa.Instruction))
+		}
+	}
+	return len(filters) > 0 && MustPass(at, newCut().Instr(filters...))
+}
+
 // (d) graph.Remove reports a successor only if it lost its last predecessor and is a node.
 func c09R3Remove(c *Ctx, R3 string) {
 	f := c.P.Fn("internal/graph", "Memory.Remove")
@@ -599,83 +700,63 @@ func c09R3Remove(c *Ctx, R3 string) {
 	}
 	fn := FnName(f)
 	n := 0
-	for _, ap := range CallsTo(f, "builtin:append") {
-		if !types.Identical(ap.Value().Type(), f.Signature.Results().At(0).Type()) {
-			continue
+	resT := f.Signature.Results().At(0).Type()
+	var hosts []*ssa.Function
+	for _, hf := range c09ReachableInPkg(f, 2) {
+		if hf == f || (hf.Parent() != nil && (hf.Parent() == f || hf.Parent().Parent() == f)) {
+			hosts = append(hosts, hf) // Remove itself and the bodies of its range-over-func loops
 		}
-		elems, whole := c09AppendedElems(ap)
-		if whole != nil {
-			c.Undecided(R3, fn+"|dangling-reported", ap.Pos(), "a whole slice is appended to the result: shape not recognised")
-			continue
-		}
-		for _, e := range elems {
-			n++
-			var key ssa.Value
-			for _, r := range Roots(e) {
-				switch u := r.(type) {
-				case *ssa.Lookup:
-					if c09IsLoadOfField(u.X, mem, "nodes") {
-						key = u.Index
-					}
-				case *ssa.Extract:
-					if lk, ok := u.Tuple.(*ssa.Lookup); ok && c09IsLoadOfField(lk.X, mem, "nodes") {
-						key = lk.Index
-					}
-				}
-			}
-			if key == nil {
-				c.Undecided(R3, fn+"|dangling-reported", ap.Pos(), "the reported node is not read from m.nodes: shape not recognised")
+	}
+	for _, f := range hosts {
+		for _, ap := range CallsTo(f, "builtin:append") {
+			if !types.Identical(ap.Value().Type(), resT) {
 				continue
 			}
-			var present, empty []Edge
-			AllInstrs(f, func(in ssa.Instruction) {
-				lk, ok := in.(*ssa.Lookup)
-				if !ok || !c09SameKey(lk.Index, key) {
-					return
-				}
-				if c09IsLoadOfField(lk.X, mem, "nodes") && lk.CommaOk {
-					for _, r := range *lk.Referrers() {
-						if ex, ok := r.(*ssa.Extract); ok && ex.Index == 1 {
-							te, _ := BoolTests(f, Aliases(ex))
-							present = append(present, te...)
+			elems, whole := c09AppendedElems(ap)
+			if whole != nil {
+				c.Undecided(R3, fn+"|dangling-reported", ap.Pos(), "a whole slice is appended to the result: shape not recognised")
+				continue
+			}
+			for _, e := range elems {
+				n++
+				var key ssa.Value
+				for _, r := range Roots(e) {
+					switch u := r.(type) {
+					case *ssa.Lookup:
+						if c09IsLoadOfField(u.X, mem, "nodes") {
+							key = u.Index
+						}
+					case *ssa.Extract:
+						if lk, ok := u.Tuple.(*ssa.Lookup); ok && c09IsLoadOfField(lk.X, mem, "nodes") {
+							key = lk.Index
 						}
 					}
 				}
-				if c09IsLoadOfField(lk.X, mem, "predecessors") {
-					var sv ssa.Value = lk
-					if lk.CommaOk {
-						sv = nil
+				var present, empty []Edge
+				if key == nil {
+					// the node comes out of a helper `node, ok := m.unlink(parent, child)` that looks it up itself
+					if hk, pe, ee, ok := c09UnlinkHelper(f, e, mem); ok {
+						key, present, empty = hk, pe, ee
+					}
+				}
+				if key == nil {
+					c.Undecided(R3, fn+"|dangling-reported", ap.Pos(), "the reported node is not read from m.nodes: shape not recognised")
+					continue
+				}
+				AllInstrs(f, func(in ssa.Instruction) {
+					lk, ok := in.(*ssa.Lookup)
+					if !ok || !c09SameKey(lk.Index, key) {
+						return
+					}
+					if c09IsLoadOfField(lk.X, mem, "nodes") && lk.CommaOk {
 						for _, r := range *lk.Referrers() {
-							if ex, ok := r.(*ssa.Extract); ok && ex.Index == 0 {
-								sv = ex
+							if ex, ok := r.(*ssa.Extract); ok && ex.Index == 1 {
+								te, _ := BoolTests(f, Aliases(ex))
+								present = append(present, te...)
 							}
 						}
 					}
-					if sv != nil {
-						empty = append(empty, lenZeroEdges(f, sv)...)
-					}
-				}
-			})
-			// … or the set became empty according to a helper of the package that
-			// returns true only when len(predecessors[key]) == 0
-			te, _ := c09BoolCallEdges(f, func(call *ssa.Call, g *ssa.Function) (int, bool) {
-				if g.Signature.Results().Len() == 0 || fnPkgPath(g) != fnPkgPath(f) {
-					return 0, false
-				}
-				for i, a := range call.Call.Args {
-					if i >= len(g.Params) || !c09SameKey(a, key) {
-						continue
-					}
-					var guards []Edge
-					sets := map[ssa.Value]bool{}
-					AllInstrs(g, func(in ssa.Instruction) {
-						lk, ok := in.(*ssa.Lookup)
-						if !ok || !c09IsLoadOfField(lk.X, mem, "predecessors") {
-							return
-						}
-						if pf, pi := c09ParamOf(lk.Index); pf != g || pi != i {
-							return
-						}
+					if c09IsLoadOfField(lk.X, mem, "predecessors") {
 						var sv ssa.Value = lk
 						if lk.CommaOk {
 							sv = nil
@@ -686,28 +767,179 @@ func c09R3Remove(c *Ctx, R3 string) {
 							}
 						}
 						if sv != nil {
-							sets[sv] = true
-							guards = append(guards, c08LenZeroEdges(g, sv)...)
-						}
-					})
-					for idx := 0; idx < g.Signature.Results().Len(); idx++ {
-						if types.Identical(g.Signature.Results().At(idx).Type(), types.Typ[types.Bool]) && (c09TrueImplies(g, idx, guards, nil) || c09IsLenZeroResult(g, idx, sets)) {
-							return idx, true
+							empty = append(empty, lenZeroEdges(f, sv)...)
 						}
 					}
-				}
-				return 0, false
-			})
-			empty = append(empty, te...)
-			ok := c09Guarded(ap.(ssa.Instruction), empty)
-			c.Check(R3, fn+"|dangling-only-without-predecessors", ap.Pos(), ok, ifelse(ok, "a successor is reported dangling only on the len(predecessors[successor]) == 0 edge", "a successor is reported as dangling although other nodes may still point to it (it would be deleted under a surviving parent)"))
-			ok = c09Guarded(ap.(ssa.Instruction), present)
-			c.Check(R3, fn+"|dangling-only-existing-nodes", ap.Pos(), ok, ifelse(ok, "a successor is reported only when it is present in m.nodes", "a successor that is not a node of the graph is reported as dangling"))
+				})
+				// … or the set became empty according to a helper of the package that
+				// returns true only when len(predecessors[key]) == 0
+				te, _ := c09BoolCallEdges(f, func(call *ssa.Call, g *ssa.Function) (int, bool) {
+					if g.Signature.Results().Len() == 0 || !inModule(g) {
+						return 0, false
+					}
+					for i, a := range call.Call.Args {
+						if i >= len(g.Params) || !c09SameKey(a, key) {
+							continue
+						}
+						var guards []Edge
+						sets := map[ssa.Value]bool{}
+						AllInstrs(g, func(in ssa.Instruction) {
+							lk, ok := in.(*ssa.Lookup)
+							if !ok {
+								return
+							}
+							// m.predecessors itself, or the map parameter of a generic helper that receives it
+							isPred := c09IsLoadOfField(lk.X, mem, "predecessors")
+							if pf, mi := c09ParamOf(lk.X); !isPred && pf == g && mi < len(call.Call.Args) && c09IsLoadOfField(call.Call.Args[mi], mem, "predecessors") {
+								isPred = true
+							}
+							if !isPred {
+								return
+							}
+							if pf, pi := c09ParamOf(lk.Index); pf != g || pi != i {
+								return
+							}
+							var sv ssa.Value = lk
+							if lk.CommaOk {
+								sv = nil
+								for _, r := range *lk.Referrers() {
+									if ex, ok := r.(*ssa.Extract); ok && ex.Index == 0 {
+										sv = ex
+									}
+								}
+							}
+							if sv != nil {
+								sets[sv] = true
+								guards = append(guards, c08LenZeroEdges(g, sv)...)
+							}
+						})
+						for idx := 0; idx < g.Signature.Results().Len(); idx++ {
+							if types.Identical(g.Signature.Results().At(idx).Type(), types.Typ[types.Bool]) && (c09TrueImplies(g, idx, guards, nil) || c09IsLenZeroResult(g, idx, sets)) {
+								return idx, true
+							}
+						}
+					}
+					return 0, false
+				})
+				empty = append(empty, te...)
+				ok := c09Guarded(ap.(ssa.Instruction), empty)
+				c.Check(R3, fn+"|dangling-only-without-predecessors", ap.Pos(), ok, ifelse(ok, "a successor is reported dangling only on the len(predecessors[successor]) == 0 edge", "a successor is reported as dangling although other nodes may still point to it (it would be deleted under a surviving parent)"))
+				ok = c09Guarded(ap.(ssa.Instruction), present)
+				c.Check(R3, fn+"|dangling-only-existing-nodes", ap.Pos(), ok, ifelse(ok, "a successor is reported only when it is present in m.nodes", "a successor that is not a node of the graph is reported as dangling"))
+			}
 		}
 	}
 	if n == 0 {
 		c.LostAnchor(R3, fn+": append of a dangling node to the result")
 	}
+}
+
+// c09UnlinkHelper: e is result #0 of a call `node, ok := helper(…, key, …)` where
+// the helper returns m.nodes[key] (or the zero value) and reports ok == true
+// only after len(m.predecessors[key]) == 0 and with ok being the presence of key
+// in m.nodes.  Returns the key argument and the edges of fn on which ok is true
+// (they stand for both guards).
+func c09UnlinkHelper(fn *ssa.Function, e ssa.Value, mem *types.Named) (key ssa.Value, present, empty []Edge, ok bool) {
+	rs := Roots(c09CellOrValue(e))
+	if len(rs) != 1 {
+		return nil, nil, nil, false
+	}
+	ex, isEx := rs[0].(*ssa.Extract)
+	if !isEx {
+		return nil, nil, nil, false
+	}
+	call, isCall := ex.Tuple.(*ssa.Call)
+	if !isCall {
+		return nil, nil, nil, false
+	}
+	g := StaticCallee(call)
+	if g == nil || !inModule(g) || len(g.Blocks) == 0 || g.Signature.Results().Len() < 2 {
+		return nil, nil, nil, false
+	}
+	// the lookup of the node in the helper, keyed by one of its parameters
+	var nodeLk *ssa.Lookup
+	kp := -1
+	AllInstrs(g, func(in ssa.Instruction) {
+		if lk, isLk := in.(*ssa.Lookup); isLk && c09IsLoadOfField(lk.X, mem, "nodes") {
+			if pf, i := c09ParamOf(lk.Index); pf == g {
+				nodeLk, kp = lk, i
+			}
+		}
+	})
+	if nodeLk == nil || kp >= len(call.Call.Args) {
+		return nil, nil, nil, false
+	}
+	// result ex.Index: m.nodes[key] or the zero value
+	for _, a := range RetAtoms(g, ex.Index) {
+		v := c09CellOrValue(a.Val)
+		if x, isX := v.(*ssa.Extract); isX && x.Tuple == ssa.Value(nodeLk) && x.Index == 0 {
+			continue
+		}
+		if v == ssa.Value(nodeLk) {
+			continue
+		}
+		if _, isZero := a.Val.(zeroMarker); isZero {
+			continue
+		}
+		if cst, isC := a.Val.(*ssa.Const); isC && cst.Value == nil {
+			continue // T{}: zero value
+		}
+		if ld, isLd := a.Val.(*ssa.UnOp); isLd {
+			if al, isAl := ld.X.(*ssa.Alloc); isAl && len(storesTo(al)) == 0 {
+				continue // composite literal T{}: zero value
+			}
+		}
+		return nil, nil, nil, false
+	}
+	// the bool result: true only past len(predecessors[key]) == 0, and equal to the presence test
+	var lenZero []Edge
+	AllInstrs(g, func(in ssa.Instruction) {
+		if lk, isLk := in.(*ssa.Lookup); isLk && c09IsLoadOfField(lk.X, mem, "predecessors") {
+			if pf, i := c09ParamOf(lk.Index); pf == g && i == kp {
+				var sv ssa.Value = lk
+				if lk.CommaOk {
+					sv = nil
+					for _, r := range *lk.Referrers() {
+						if x, isX := r.(*ssa.Extract); isX && x.Index == 0 {
+							sv = x
+						}
+					}
+				}
+				if sv != nil {
+					lenZero = append(lenZero, c08LenZeroEdges(g, sv)...)
+				}
+			}
+		}
+	})
+	if len(lenZero) == 0 {
+		return nil, nil, nil, false
+	}
+	for bi := 0; bi < g.Signature.Results().Len(); bi++ {
+		if !types.Identical(g.Signature.Results().At(bi).Type(), types.Typ[types.Bool]) {
+			continue
+		}
+		good := true
+		for _, a := range RetAtoms(g, bi) {
+			if cst, isC := a.Val.(*ssa.Const); isC && cst.Value != nil && cst.Value.String() == "false" {
+				continue
+			}
+			isPresence := false
+			if x, isX := a.Val.(*ssa.Extract); isX && x.Tuple == ssa.Value(nodeLk) && x.Index == 1 {
+				isPresence = true
+			}
+			if !isPresence || !AtomMustPass(a, newCut().Edges(lenZero...)) {
+				good = false
+			}
+		}
+		if !good {
+			continue
+		}
+		if bv := ResultOf(call, bi); bv != nil {
+			te, _ := BoolTests(fn, Aliases(bv))
+			return call.Call.Args[kp], te, te, len(te) > 0
+		}
+	}
+	return nil, nil, nil, false
 }
 
 // c09IsLenZeroResult: result idx of g is the predicate `len(set) == 0` itself on every return.
@@ -1037,6 +1269,203 @@ func c09TaggedTests(fn *ssa.Function, e ssa.Value) (tagged, untagged []Edge) {
 	return
 }
 
+// c09WholeSink: a slice value handed on as a whole at an instruction.
+type c09WholeSink struct {
+	at    ssa.Instruction
+	whole ssa.Value
+}
+
+// c09WholeSinks: `append(dst, xs...)` (xs), and — when withReturns — slice
+// results returned by fn; slices.Concat(a, b, …) counts for each of its operands.
+func c09WholeSinks(fn *ssa.Function, withReturns bool) []c09WholeSink {
+	var out []c09WholeSink
+	var add func(at ssa.Instruction, v ssa.Value, depth int)
+	add = func(at ssa.Instruction, v ssa.Value, depth int) {
+		if v == nil || depth > 3 {
+			return
+		}
+		for _, rt := range Roots(c09Resolved(v)) {
+			if call, ok := rt.(*ssa.Call); ok && CalleeName(call) == "slices.Concat" && len(call.Call.Args) == 1 {
+				if sl, isSlice := call.Call.Args[0].(*ssa.Slice); isSlice {
+					if arr, isAlloc := sl.X.(*ssa.Alloc); isAlloc {
+						for _, ref := range *arr.Referrers() {
+							if ia, isIA := ref.(*ssa.IndexAddr); isIA {
+								for _, r2 := range *ia.Referrers() {
+									if st, isSt := r2.(*ssa.Store); isSt && st.Addr == ssa.Value(ia) {
+										add(at, st.Val, depth+1)
+									}
+								}
+							}
+						}
+						continue
+					}
+				}
+			}
+			out = append(out, c09WholeSink{at, rt})
+		}
+	}
+	for _, ap := range CallsTo(fn, "builtin:append") {
+		if _, whole := c09AppendedElems(ap); whole != nil {
+			add(ap.(ssa.Instruction), whole, 0)
+		}
+	}
+	for _, ap := range CallsTo(fn, "slices.AppendSeq") { // append every element of an iterator
+		if a := ap.Common().Args; len(a) == 2 {
+			add(ap.(ssa.Instruction), a[1], 0)
+		}
+	}
+	if withReturns {
+		for _, r := range Returns(fn) {
+			for _, res := range r.Results {
+				if _, isSlice := res.Type().Underlying().(*types.Slice); isSlice {
+					if c, isConst := res.(*ssa.Const); isConst && c.Value == nil {
+						continue
+					}
+					add(r, res, 0)
+				}
+			}
+		}
+	}
+	return out
+}
+
+// c09FilterAdapter: g(seq, keep) returns an iterator that yields exactly those
+// elements v of seq for which keep(v) is true (only they are yielded).  Returns
+// the indexes of the two parameters.
+func c09FilterAdapter(g *ssa.Function) (seqParam, keepParam int, ok bool) {
+	if g == nil || !inModule(g) || len(g.Blocks) == 0 {
+		return -1, -1, false
+	}
+	paramIdx := func(v ssa.Value) int {
+		if pf, i := c09ParamOf(c09Resolved(v)); pf == g {
+			return i
+		}
+		return -1
+	}
+	for _, a := range RetAtoms(g, 0) {
+		mc, isMC := strip(a.Val).(*ssa.MakeClosure)
+		if !isMC {
+			return -1, -1, false
+		}
+		P := mc.Fn.(*ssa.Function)
+		if len(P.Params) == 0 {
+			return -1, -1, false
+		}
+		yield := P.Params[len(P.Params)-1]
+		found := false
+		AllInstrs(P, func(in ssa.Instruction) {
+			seq, body, isRF := c09RangeFuncCall(in)
+			if !isRF || len(body.Params) == 0 {
+				return
+			}
+			si := paramIdx(seq)
+			if si < 0 {
+				return
+			}
+			v := body.Params[0]
+			// yield(v) in the body, guarded by keep(v)
+			for _, yc := range Calls(body, func(string) bool { return true }) {
+				call, isCall := yc.(*ssa.Call)
+				if !isCall || call.Call.IsInvoke() || c09Resolved(call.Call.Value) != ssa.Value(yield) || len(call.Call.Args) == 0 || !c09SameKey(call.Call.Args[0], v) {
+					continue
+				}
+				for _, i := range Ifs(body) {
+					cond, t, _ := ifEdges(i)
+					kc, isKC := cond.(*ssa.Call)
+					if !isKC || kc.Call.IsInvoke() || len(kc.Call.Args) != 1 || !c09SameKey(kc.Call.Args[0], v) {
+						continue
+					}
+					ki := paramIdx(kc.Call.Value)
+					if ki >= 0 && c09Guarded(call, []Edge{t}) {
+						seqParam, keepParam, found = si, ki, true
+					}
+				}
+			}
+		})
+		if !found {
+			return -1, -1, false
+		}
+	}
+	return seqParam, keepParam, seqParam >= 0
+}
+
+// c09FilterSeqOf: seq iterates over the elements of the slice (slices.Values)
+// that satisfy a predicate, through an in-module filter adapter: returns the predicate.
+func c09FilterSeqOf(seq ssa.Value, slice map[ssa.Value]bool) (keep ssa.Value, ok bool) {
+	if seq == nil {
+		return nil, false
+	}
+	call, isCall := c09Resolved(seq).(*ssa.Call)
+	if !isCall {
+		return nil, false
+	}
+	si, ki, isFilter := c09FilterAdapter(StaticCallee(call))
+	if !isFilter || si >= len(call.Call.Args) || ki >= len(call.Call.Args) {
+		return nil, false
+	}
+	src, isSrc := c09Resolved(call.Call.Args[si]).(*ssa.Call)
+	if !isSrc || CalleeName(src) != "slices.Values" || len(src.Call.Args) != 1 {
+		return nil, false
+	}
+	x := c09Resolved(src.Call.Args[0])
+	if !slice[x] && !slice[src.Call.Args[0]] {
+		return nil, false
+	}
+	return call.Call.Args[ki], true
+}
+
+// c09PredIsNot: pred(d) == !target(d): a closure that returns the negation of a call of target on its parameter.
+func c09PredIsNot(pred ssa.Value, target *ssa.Function) bool {
+	if target == nil {
+		return false
+	}
+	for _, rt := range Roots(c09Resolved(pred)) {
+		mc, ok := rt.(*ssa.MakeClosure)
+		if !ok {
+			return false
+		}
+		fn := mc.Fn.(*ssa.Function)
+		atoms := RetAtoms(fn, 0)
+		if len(atoms) == 0 || len(fn.Params) != 1 {
+			return false
+		}
+		for _, a := range atoms {
+			not, isNot := a.Val.(*ssa.UnOp)
+			if !isNot || not.Op != token.NOT {
+				return false
+			}
+			call, isCall := not.X.(*ssa.Call)
+			if !isCall || StaticCallee(call) != target || !c09SameKey(call.Call.Args[len(call.Call.Args)-1], fn.Params[0]) {
+				return false
+			}
+		}
+	}
+	return true
+}
+
+// c09DeleteFuncOf: whole is slices.DeleteFunc(X, pred) where X is the slice (or a
+// slices.Clone of it); nil otherwise.
+func c09DeleteFuncOf(whole ssa.Value, slice map[ssa.Value]bool) *ssa.Call {
+	if whole == nil {
+		return nil
+	}
+	for _, rt := range Roots(c09Resolved(whole)) {
+		df, ok := rt.(*ssa.Call)
+		if !ok || CalleeName(df) != "slices.DeleteFunc" || len(df.Call.Args) != 2 {
+			return nil
+		}
+		src := c09Resolved(df.Call.Args[0])
+		if cl, isCall := src.(*ssa.Call); isCall && CalleeName(cl) == "slices.Clone" && len(cl.Call.Args) == 1 {
+			src = c09Resolved(cl.Call.Args[0])
+		}
+		if !slice[src] {
+			return nil
+		}
+		return df
+	}
+	return nil
+}
+
 // c09PredIs: the function value pred is (a bound-method or trivial wrapper of) target.
 func c09PredIs(pred ssa.Value, target *ssa.Function) bool {
 	if target == nil {
@@ -1236,26 +1665,23 @@ func c09R4(c *Ctx) {
 					usesAlg = usesAlg || c09Uses(pv, alg, 0)
 				}
 				if !usesAlg {
-					// the directory may come in as a parameter of the sweeping helper: it must be built, at every
-					// call site, from the value the algorithm was taken from
-					algOs, okA := c09Origins(c.P, alg, 2, nil)
-					for _, pv := range pathVals {
-						for _, prm := range T.Params {
-							if !c09Uses(pv, prm, 0) {
-								continue
-							}
-							dirOs, okD := c09Origins(c.P, prm, 2, nil)
-							all := okA && okD && len(dirOs) > 0 && len(algOs) > 0 && !(len(dirOs) == 1 && dirOs[0] == ssa.Value(prm))
-							for _, d := range dirOs {
-								hit := false
-								for _, a := range algOs {
-									if c09Uses(d, strip(a), 0) {
-										hit = true
+					// the directory may come in as a parameter of the sweeping helper: at every place the helper is
+					// entered from, it must be built from the value the algorithm is taken from
+					if sites, closed := c09SitesOf(c.P, T); closed && len(sites) > 0 {
+						for _, pv := range pathVals {
+							for _, prm := range T.Params {
+								if !c09Uses(pv, prm, 0) {
+									continue
+								}
+								all := true
+								for _, cs := range sites {
+									dv, av := cs.Tr(prm), cs.Tr(alg)
+									if dv == nil || av == nil || !(c09Uses(dv, strip(av), 0) || c09Uses(dv, c09Resolved(strip(av)), 0)) {
+										all = false
 									}
 								}
-								all = all && hit
+								usesAlg = usesAlg || all
 							}
-							usesAlg = usesAlg || all
 						}
 					}
 				}
@@ -1287,37 +1713,16 @@ func c09R4(c *Ctx) {
 							}
 							continue
 						}
-						// lookup table: `if !knownAlgorithms[alg] { continue }` on a package-level map
-						var lk *ssa.Lookup
-						switch u := cond.(type) {
-						case *ssa.Lookup:
-							lk = u
-						case *ssa.Extract:
-							if x, isLk := u.Tuple.(*ssa.Lookup); isLk {
-								lk = x
+						// any other membership test: lookup table, slices.Contains over a package-level list,
+						// go-digest's registry, or an in-module predicate built from those
+						if consts, registry, isSet := c09AlgSetOf(c.P, cond, algV, 0); isSet {
+							for _, k := range consts {
+								inlineAlgs[k] = true
 							}
-						}
-						if lk != nil && c09ValEq(strip(lk.Index), algV) {
-							if keys, isTable := c09GlobalMapKeys(c.P, lk.X); isTable {
-								for _, k := range keys {
-									inlineAlgs[k] = true
-								}
-								known = append(known, t)
+							if registry {
+								registryTest = true
 							}
-							continue
-						}
-						call, isCall := cond.(*ssa.Call)
-						if !isCall || len(call.Call.Args) != 1 || !c09ValEq(strip(call.Call.Args[0]), algV) {
-							continue
-						}
-						if CalleeName(call) == "(digest.Algorithm).Available" {
-							known = append(known, t) // go-digest's own registry: every storable algorithm
-							registryTest = true
-							continue
-						}
-						if g := StaticCallee(call); g != nil && inModule(g) && len(StringConstsComparedWith(g, func(ssa.Value) bool { return true })) > 0 {
 							known = append(known, t)
-							knownFns[g] = true
 						}
 					}
 					return known
@@ -1356,6 +1761,178 @@ func c09R4(c *Ctx) {
 		}
 	}
 	c09R4GcIndex(c, R4, h)
+}
+
+// c09AlgSetOf: the bool value v is true exactly when arg is a member of a fixed
+// set of strings: a lookup in a package-level table, slices.Contains over a
+// package-level list, go-digest's Algorithm.Available, or a call of an in-module
+// predicate whose result is one of those in terms of its parameter (or which
+// compares its parameter with string constants).
+func c09AlgSetOf(p *Prog, v ssa.Value, arg ssa.Value, depth int) (consts []string, registry, ok bool) {
+	if depth > 2 {
+		return nil, false, false
+	}
+	same := func(x ssa.Value) bool { return c09ValEq(strip(x), strip(arg)) }
+	switch u := v.(type) {
+	case *ssa.Lookup:
+		if same(u.Index) {
+			if keys, isTable := c09GlobalMapKeys(p, u.X); isTable {
+				return keys, false, true
+			}
+		}
+	case *ssa.Extract:
+		if lk, isLk := u.Tuple.(*ssa.Lookup); isLk && u.Index == 1 {
+			return c09AlgSetOf(p, lk, arg, depth)
+		}
+	case *ssa.Call:
+		n := CalleeName(u)
+		args := u.Call.Args
+		switch {
+		case n == "(digest.Algorithm).Available" && len(args) == 1 && same(args[0]):
+			return nil, true, true
+		case n == "slices.Contains" && len(args) == 2 && same(args[1]):
+			if keys, isList := c09GlobalSliceConsts(p, args[0]); isList {
+				return keys, false, true
+			}
+		case n == "slices.Index" || n == "slices.IndexFunc":
+			return nil, false, false
+		}
+		g := StaticCallee(u)
+		if g == nil || !inModule(g) || len(g.Blocks) == 0 || len(args) == 0 {
+			return nil, false, false
+		}
+		pi := -1
+		for i, a := range args {
+			if same(a) {
+				pi = i
+			}
+		}
+		if pi < 0 || pi >= len(g.Params) {
+			return nil, false, false
+		}
+		all := map[string]bool{}
+		okAll, anyReg := true, false
+		atoms := RetAtoms(g, 0)
+		structured := len(atoms) > 0
+		for _, a := range atoms {
+			if _, isConst := a.Val.(*ssa.Const); isConst {
+				structured = false // `switch x { case …: return true }`: constants compared in the body
+				break
+			}
+			cs, reg, ok := c09AlgSetOf(p, a.Val, g.Params[pi], depth+1)
+			if !ok {
+				okAll = false
+			}
+			anyReg = anyReg || reg
+			for _, k := range cs {
+				all[k] = true
+			}
+		}
+		if structured && okAll {
+			return c09SortedKeys(all), anyReg, true
+		}
+		if cs := StringConstsComparedWith(g, func(ssa.Value) bool { return true }); len(cs) > 0 {
+			return cs, false, true
+		}
+	}
+	return nil, false, false
+}
+
+// c09GlobalSliceConsts: s is (a load of) a package-level slice variable of the
+// module initialised with constant strings and never written elsewhere.
+func c09GlobalSliceConsts(p *Prog, sv ssa.Value) ([]string, bool) {
+	rs := Roots(sv)
+	if len(rs) != 1 {
+		return nil, false
+	}
+	// a local literal: known := [...]T{a, b, c}; … known[:]
+	if sl, isSlice := rs[0].(*ssa.Slice); isSlice {
+		if arr, isAlloc := sl.X.(*ssa.Alloc); isAlloc {
+			keys := map[string]bool{}
+			ok := true
+			for _, ref := range *arr.Referrers() {
+				switch u := ref.(type) {
+				case *ssa.IndexAddr:
+					for _, r2 := range *u.Referrers() {
+						es, isSt := r2.(*ssa.Store)
+						if !isSt || es.Addr != ssa.Value(u) {
+							ok = false
+							continue
+						}
+						if k, isC := constString(es.Val); isC {
+							keys[k] = true
+						} else {
+							ok = false
+						}
+					}
+				case *ssa.Slice, *ssa.DebugRef:
+				default:
+					ok = false
+				}
+			}
+			if ok && len(keys) > 0 {
+				return c09SortedKeys(keys), true
+			}
+			return nil, false
+		}
+	}
+	ld, ok := rs[0].(*ssa.UnOp)
+	if !ok || ld.Op != token.MUL {
+		return nil, false
+	}
+	g, ok := ld.X.(*ssa.Global)
+	if !ok || g.Pkg == nil {
+		return nil, false
+	}
+	init := g.Pkg.Func("init")
+	if init == nil {
+		return nil, false
+	}
+	keys := map[string]bool{}
+	complete := true
+	AllInstrs(init, func(in ssa.Instruction) {
+		st, ok := in.(*ssa.Store)
+		if !ok || st.Addr != ssa.Value(g) {
+			return
+		}
+		sl, isSlice := st.Val.(*ssa.Slice)
+		if !isSlice {
+			complete = false
+			return
+		}
+		arr, isAlloc := sl.X.(*ssa.Alloc)
+		if !isAlloc {
+			complete = false
+			return
+		}
+		for _, ref := range *arr.Referrers() {
+			if ia, isIA := ref.(*ssa.IndexAddr); isIA {
+				for _, r2 := range *ia.Referrers() {
+					if es, isSt := r2.(*ssa.Store); isSt && es.Addr == ssa.Value(ia) {
+						if k, isC := constString(es.Val); isC {
+							keys[k] = true
+						} else {
+							complete = false
+						}
+					}
+				}
+			}
+		}
+	})
+	for f := range p.All {
+		if f == init || f.Pkg != g.Pkg {
+			continue
+		}
+		AllInstrs(f, func(in ssa.Instruction) {
+			if st, ok := in.(*ssa.Store); ok && st.Addr == ssa.Value(g) {
+				complete = false
+			}
+		})
+	}
+	if !complete || len(keys) == 0 {
+		return nil, false
+	}
+	return c09SortedKeys(keys), true
 }
 
 // c09GlobalMapKeys: m is a load of a package-level map variable of the module that
@@ -1477,74 +2054,62 @@ func c09R4GcIndex(c *Ctx, R4 string, h *c09Helpers) {
 	}
 	pass1 := 0
 	gcIndexFn := f
-	origNewRes, origNewGraph := newRes, newGraph
-	for _, f := range c09ReachableInPkg(gcIndexFn, 2) {
-		// the rebuilt resolver / graph as seen in f: the values themselves, or the parameters they are passed in
-		newRes, newGraph := origNewRes, origNewGraph
-		if f != gcIndexFn {
-			newRes, newGraph = nil, nil
-			for _, prm := range f.Params {
-				os, ok := c09Origins(c.P, prm, 2, gcIndexFn)
-				if !ok || len(os) == 0 {
-					continue
-				}
-				allRes, allGraph := true, true
-				for _, o := range os {
-					allRes = allRes && c09SameKey(o, origNewRes)
-					allGraph = allGraph && c09SameKey(o, origNewGraph)
-				}
-				if allRes {
-					newRes = prm
-				}
-				if allGraph {
-					newGraph = prm
-				}
-			}
-			if newRes == nil || newGraph == nil {
-				continue
+	// is v (in whatever function below gcIndex) the rebuilt resolver / graph?
+	isNew := func(v, orig ssa.Value) bool {
+		if v == nil {
+			return false
+		}
+		if c09SameKey(v, orig) || c09SameKey(c09Resolved(v), c09Resolved(orig)) {
+			return true
+		}
+		os, ok := c09Origins(c.P, v, 2, gcIndexFn)
+		if !ok || len(os) == 0 {
+			return false
+		}
+		for _, o := range os {
+			if !(c09SameKey(o, orig) || c09SameKey(c09Resolved(o), c09Resolved(orig))) {
+				return false
 			}
 		}
-		for _, l := range Loops(f) {
-			_, next, _, _, ok := l.RangeMap()
-			if !ok {
-				continue
+		return true
+	}
+	// the snapshot of the old tag map that the passes range over
+	maps := map[ssa.Value]bool{}
+	for _, g := range c09ReachableInPkg(gcIndexFn, 2) {
+		res := c08StoreFieldLoads(g, store, "tagResolver")
+		for _, mc := range CallsTo(g, c09nMap) {
+			if res[mc.Common().Args[0]] {
+				for a := range Aliases(mc.Value()) {
+					maps[a] = true
+				}
 			}
-			var k, v ssa.Value
-			for _, r := range *next.Referrers() {
-				if e, ok := r.(*ssa.Extract); ok {
-					if e.Index == 1 {
-						k = e
-					} else if e.Index == 2 {
-						v = e
+		}
+	}
+	for round := 0; round < 2; round++ {
+		for _, g := range c09ReachableInPkg(gcIndexFn, 2) {
+			for _, prm := range g.Params {
+				if os, ok := c09Origins(c.P, prm, 1, nil); ok && len(os) > 0 && !(len(os) == 1 && os[0] == ssa.Value(prm)) {
+					all := true
+					for _, o := range os {
+						all = all && (maps[o] || maps[c09Resolved(o)])
+					}
+					if all {
+						maps[prm] = true
 					}
 				}
 			}
-			if k == nil || v == nil {
-				continue
+		}
+	}
+	for _, f := range c09ReachableInPkg(gcIndexFn, 2) {
+		if c09IsYieldBody(f) {
+			continue // reached through the loop statement of its parent
+		}
+		for _, p := range c08Passes(f, maps) {
+			p := p
+			k, obj, body := p.k, p.obj, p.fn
+			inObj := func(v ssa.Value) bool {
+				return v != nil && (obj.vals[v] || obj.vals[strip(v)] || obj.vals[c09CellOrValue(v)])
 			}
-			obj := c09DescObjOf(v)
-			// the ref != digest edge
-			var neq []Edge
-			for _, i := range Ifs(f) {
-				if !l.Blocks[i.Block()] {
-					continue
-				}
-				cond, t, fe := ifEdges(i)
-				bo, ok := cond.(*ssa.BinOp)
-				if !ok || (bo.Op != token.EQL && bo.Op != token.NEQ) {
-					continue
-				}
-				isDg := func(x ssa.Value) bool { return c09DigestString(obj, x) || c09DigestString(obj, strip(x)) }
-				if (c09SameKey(bo.X, k) && isDg(bo.Y)) || (c09SameKey(bo.Y, k) && isDg(bo.X)) {
-					if bo.Op == token.NEQ {
-						neq = append(neq, t)
-					} else {
-						neq = append(neq, fe)
-					}
-				}
-			}
-			// the effects of this pass, performed directly or by an extracted helper
-			inObj := func(v ssa.Value) bool { return v != nil && (obj.vals[v] || obj.vals[strip(v)]) }
 			digestStringOfObj := func(x ssa.Value, bind c09Bind) bool {
 				call, ok := strip(x).(*ssa.Call)
 				var dg ssa.Value
@@ -1557,45 +2122,49 @@ func c09R4GcIndex(c *Ctx, R4 string, h *c09Helpers) {
 				}
 				return dg != nil && inObj(bind(c09FieldBase(dg, "Digest")))
 			}
-			inLoop := func(ins []ssa.Instruction) []ssa.Instruction {
+			inBody := func(ins []ssa.Instruction) []ssa.Instruction {
 				var out []ssa.Instruction
 				for _, in := range ins {
-					if l.Contains(in) {
+					if p.it.InBody(in) {
 						out = append(out, in)
 					}
 				}
 				return out
 			}
-			tagRef := inLoop(c09EffectSites(f, c09Identity, func(call ssa.CallInstruction, bind c09Bind) bool {
+			tagRef := inBody(c09EffectSites(body, c09Identity, func(call ssa.CallInstruction, bind c09Bind) bool {
 				a := call.Common().Args
-				return CalleeName(call) == c09nTag && len(a) == 4 && bind(a[0]) != nil && c09SameKey(bind(a[0]), newRes) && bind(a[3]) != nil && c09SameKey(bind(a[3]), k) && inObj(bind(a[2]))
+				return CalleeName(call) == c09nTag && len(a) == 4 && k != nil && isNew(bind(a[0]), newRes) && bind(a[3]) != nil && c09SameKey(bind(a[3]), k) && inObj(bind(c09CellOrValue(a[2])))
 			}, 2))
-			tagDg := inLoop(c09EffectSites(f, c09Identity, func(call ssa.CallInstruction, bind c09Bind) bool {
+			tagDg := inBody(c09EffectSites(body, c09Identity, func(call ssa.CallInstruction, bind c09Bind) bool {
 				a := call.Common().Args
-				return CalleeName(call) == c09nTag && len(a) == 4 && bind(a[0]) != nil && c09SameKey(bind(a[0]), newRes) && digestStringOfObj(a[3], bind)
+				return CalleeName(call) == c09nTag && len(a) == 4 && isNew(bind(a[0]), newRes) && digestStringOfObj(a[3], bind)
 			}, 2))
-			idx := inLoop(c09EffectSites(f, c09Identity, func(call ssa.CallInstruction, bind c09Bind) bool {
+			idx := inBody(c09EffectSites(body, c09Identity, func(call ssa.CallInstruction, bind c09Bind) bool {
 				a := call.Common().Args
-				return CalleeName(call) == c09nIndexAll && len(a) == 4 && bind(a[0]) != nil && c09SameKey(bind(a[0]), newGraph)
+				return CalleeName(call) == c09nIndexAll && len(a) == 4 && isNew(bind(a[0]), newGraph)
 			}, 2))
+			lpos := p.it.Stmt.Pos()
+			if p.l != nil {
+				lpos = blockPos(p.l.Header)
+			}
 			if len(tagRef) > 0 {
 				pass1++
-				if len(neq) == 0 {
-					c.Undecided(R4, fn+"|pass1-keeps-tagged-entries", blockPos(l.Header), "the ref != digest test of the first pass is not recognised")
+				starts := p.starts(-1)
+				if len(starts) == 0 {
+					c.Undecided(R4, fn+"|pass1-keeps-tagged-entries", lpos, "the ref != digest test of the first pass is not recognised")
 					continue
 				}
-				header := l.Header.Instrs[0]
 				for _, req := range []struct {
 					what string
 					ins  []ssa.Instruction
 				}{{"tag-by-ref", tagRef}, {"tag-by-digest", tagDg}, {"index-all", idx}} {
 					ok := len(req.ins) > 0
-					for _, e := range neq {
-						if reach(e.To, 0, header, newCut().Instr(req.ins...)) {
+					for _, b := range starts {
+						if p.it.ContinuesWithout(b, 0, newCut().Instr(req.ins...)) {
 							ok = false
 						}
 					}
-					c.Check(R4, fn+"|pass1-keeps-tagged-entries:"+req.what, blockPos(l.Header), ok, ifelse(ok,
+					c.Check(R4, fn+"|pass1-keeps-tagged-entries:"+req.what, lpos, ok, ifelse(ok,
 						"every ref != digest entry that continues the loop went through "+req.what+" on the new resolver/graph",
 						"a tagged entry (ref != digest) can be skipped without "+req.what+": GC would drop a tag or treat tagged content as garbage"))
 				}
@@ -1603,21 +2172,17 @@ func c09R4GcIndex(c *Ctx, R4 string, h *c09Helpers) {
 			}
 			// pass 2: digest-only entries are kept only under graph.Exists(subject)
 			if len(tagDg) > 0 {
-				exT, _, _ := CallTests(f, c09nExists, func(x *ssa.Call) bool { return c09SameKey(x.Call.Args[0], newGraph) })
+				exT, _, _ := CallTests(body, c09nExists, func(x *ssa.Call) bool { return isNew(x.Call.Args[0], newGraph) })
 				// … or a helper that answers true only on newGraph.Exists(...) == true
-				te, _ := c09BoolCallEdges(f, func(call *ssa.Call, g *ssa.Function) (int, bool) {
-					if fnPkgPath(g) != fnPkgPath(f) {
+				te, _ := c09BoolCallEdges(body, func(call *ssa.Call, g *ssa.Function) (int, bool) {
+					if fnPkgPath(g) != fnPkgPath(body) {
 						return 0, false
 					}
-					for i, a := range call.Call.Args {
-						if i >= len(g.Params) || !c09SameKey(a, newGraph) {
-							continue
-						}
-						inner, _, _ := CallTests(g, c09nExists, func(x *ssa.Call) bool { pf, pi := c09ParamOf(x.Call.Args[0]); return pf == g && pi == i })
-						for idx := 0; idx < g.Signature.Results().Len(); idx++ {
-							if types.Identical(g.Signature.Results().At(idx).Type(), types.Typ[types.Bool]) && len(inner) > 0 && c09TrueImplies(g, idx, inner, nil) {
-								return idx, true
-							}
+					gb := c09HelperBind(call, g, c09Identity)
+					inner, _, _ := CallTests(g, c09nExists, func(x *ssa.Call) bool { return isNew(gb(x.Call.Args[0]), newGraph) })
+					for ri := 0; ri < g.Signature.Results().Len(); ri++ {
+						if types.Identical(g.Signature.Results().At(ri).Type(), types.Typ[types.Bool]) && len(inner) > 0 && c09TrueImplies(g, ri, inner, nil) {
+							return ri, true
 						}
 					}
 					return 0, false
@@ -1630,10 +2195,10 @@ func c09R4GcIndex(c *Ctx, R4 string, h *c09Helpers) {
 					}
 				}
 				if !ok && len(exT) > 0 {
-					c.Undecided(R4, fn+"|pass2-keeps-only-referrers-of-kept-nodes", blockPos(l.Header), "the second pass consults newGraph.Exists but the rule cannot show that an untagged entry is kept only when it answered true (condition shape not recognised)")
+					c.Undecided(R4, fn+"|pass2-keeps-only-referrers-of-kept-nodes", lpos, "the second pass consults newGraph.Exists but the rule cannot show that an untagged entry is kept only when it answered true (condition shape not recognised)")
 					continue
 				}
-				c.Check(R4, fn+"|pass2-keeps-only-referrers-of-kept-nodes", blockPos(l.Header), ok, ifelse(ok,
+				c.Check(R4, fn+"|pass2-keeps-only-referrers-of-kept-nodes", lpos, ok, ifelse(ok,
 					"an untagged entry is re-tagged/re-indexed only on the newGraph.Exists(subject) edge",
 					"an untagged entry is kept without its subject chain reaching the rebuilt graph: garbage survives GC"))
 			}
